@@ -82,7 +82,7 @@ bool fenModel(const std::string& fen, ref::Pos& p, std::string& why) {
     if (p.count('K') != 1) { why = "white king"; return false; }
     if (p.count('k') != 1) { why = "black king"; return false; }
     if (ref::inCheck(p, !p.wtm)) { why = "king capture"; return false; }
-    if (p.ep >= 0 && !ref::legalEp(p)) p.ep = -1;
+    if (p.ep >= 0) { ref::Pos q = p; q.hmc = 0; q.fmc = 1; if (!ref::legalEp(q)) p.ep = -1; } // (refchess's own counters must not overflow)
     return true;
 }
 
